@@ -280,8 +280,16 @@ func vsoProbe(c vsoCase, out *vsoOut, followBound time.Duration) error {
 		pb = short
 	}
 	fu["printer"], fu["during"] = vsoPrinter(obs, pb)
+	// once one wait of this probe has run into its bound the server is wedged: the remaining waits add no verdict, they get the
+	// short bound (a wedged probe must not eat the process' time budget)
+	if fu["printer"] != "ok" {
+		closeBound, pb = short, short
+	}
 	if fw == "served-open" {
 		fu["followEnd"], _ = vsoClose(f, closeBound)
+		if fu["followEnd"] == "hang" {
+			closeBound, pb = short, short
+		}
 	} else {
 		fu["followEnd"] = "none"
 		if f != nil {
@@ -289,6 +297,9 @@ func vsoProbe(c vsoCase, out *vsoOut, followBound time.Duration) error {
 		}
 	}
 	fu["holdEnd"], _ = vsoClose(hold, closeBound)
+	if fu["holdEnd"] == "hang" {
+		closeBound, pb = short, short
+	}
 	if e2, _ := vsoClose(hold2, closeBound); e2 != "ok" {
 		fu["holdEnd"] = e2
 	}
